@@ -258,6 +258,8 @@ func checkC11(c *Ctx) {
 		rk.Bad(pre.Name(), "reference loops", pre.Body.Pos(), "fewer than four key-building branches found in preload (join-table own/other side, plain own/other side)")
 	}
 
+	checkC11KeyNonZero(c)
+
 	// ---- key-func ----
 	rf := c.Rule("C11.key-func", "identity maps are written and read through one key function", 4)
 	gif := p.FuncDecl(pkgSchema, "GetIdentityFieldValuesMap")
